@@ -283,3 +283,6 @@ func IteBool(c, a, b bool) bool {
 	}
 	return b
 }
+
+// IsConcrete reports whether s has no symbolic bytes (always true natively).
+func IsConcrete(s string) bool { return true }
